@@ -5,7 +5,7 @@ import Ixd.GCFuel
 # C05 — garbage collection never removes retained or recent content
 
 Model: `Ixd.gc` (lean/Ixd/GCModel.lean), a transcription of `repoGarbageCollect` (internal/store/store.go) as repaired by
-`patches/F4-gc-digest-roles.diff`, `Ixd.memGC` / `Ixd.dirGC` (lean/Ixd/GCPass.lean) for the two stores; tied to the code by
+`patches/F4-gc-digest-roles.diff` and `patches/F41-gc-child-records-without-content.diff`, `Ixd.memGC` / `Ixd.dirGC` (lean/Ixd/GCPass.lean) for the two stores; tied to the code by
 the `gc` and `gcdir` correspondence profiles (vlib/p_gc.py).
 
 `Ixd.Retained p bs ms g` is the order-free specification "the policy `p` retains digest `g`" of DESIGN.md §C05, with the
